@@ -134,6 +134,9 @@ func vfFileWrite(f *os.File, b []byte) (int, error) {
 	return len(b), nil
 }
 
+// vfFileWriteString: (*os.File).WriteString (bufio passes a string straight through when its buffer is empty).
+func vfFileWriteString(f *os.File, s string) (int, error) { return vfFileWrite(f, []byte(s)) }
+
 func vfFileRead(f *os.File, b []byte) (int, error) {
 	h, err := vfHandleOf(f)
 	if err != nil {
